@@ -3,8 +3,6 @@ from __future__ import annotations
 
 import ast
 
-from ..source import norm, const_value, walk_no_nested, FuncInfo
-from .common import is_name, params, single_return, bind_call, returns_of
 
 VECTOR = "core/vector.py::Vector"
 VBINOP = "core/vector.py::_binary_op"
@@ -13,101 +11,7 @@ FORWARDED = ["__add__", "__iadd__", "__sub__", "__isub__", "__mul__", "__imul__"
              "__lt__", "__le__", "__gt__", "__ge__", "__eq__", "__ne__", "__and__", "__or__", "__xor__"]
 
 
-def check_vector_forwarding(run, tree, names=FORWARDED):
-    """Each Vector dunder forwards the same-named Array dunder to vector._binary_op(name, self, other)."""
-    vi = tree.cls(VECTOR)
-    for d in names:
-        fi = tree.method(vi, d)
-        construct = "%s.%s" % (VECTOR, d)
-        if fi is None or fi.cls.qual != vi.qual:
-            run.violated(construct, vi.module.rel, "%s is not defined on Vector" % d, "v %s w" % d)
-            continue
-        run.analysed(fi)
-        ret = single_return(fi)
-        ok, detail = False, norm(ret)[:80] if ret is not None else "not a single return"
-        if isinstance(ret, ast.Call):
-            callee = tree.resolve_call(fi, ret)
-            if isinstance(callee, FuncInfo) and callee.qual == VBINOP:
-                bound, extra, star = bind_call(callee.node, ret)
-                pn = params(callee)
-                me = params(fi)
-                opname = const_value(bound.get(pn[0]))
-                ok = (opname == d and is_name(bound.get(pn[1]), me[0]) and len(me) > 1 and is_name(bound.get(pn[2]), me[1])
-                      and not extra and not star)
-                detail = "forwards %r with operands (%s, %s)" % (opname, norm(bound.get(pn[1])), norm(bound.get(pn[2])))
-        run.ob(construct, ok, fi.where(), detail,
-               "v %s w applies a different operator to the components%s" % (
-                   d, " / rebinds v to a new Vector so that other references do not see the update" if d.startswith("__i") else ""))
 
 
-def _component_dictcomp(call):
-    for k in call.keywords:
-        if k.arg is None and isinstance(k.value, ast.DictComp):
-            return k.value
-    return None
 
 
-def check_component_map(run, tree, fi, construct, elt_ok, what, need_name=False):
-    """`fi` returns self.__class__(**{c: f(xyz) for c, xyz in self._xyz.items()}[, name=...]) with f accepted by elt_ok.
-    A helper method that performs the component map with a function argument (self._map(lambda xyz: ...)) is followed.
-    Unrecognised shapes are *unresolved*; a recognised map over a subset / with another element is a violation."""
-    if fi is None:
-        run.violated(construct, "core/vector.py", "method not defined", what)
-        return
-    run.analysed(fi)
-    ret = single_return(fi)
-    pn = params(fi)
-    if not isinstance(ret, ast.Call):
-        run.unresolved(construct, fi.where(), "body is not a single `return <call>`")
-        return
-    name_ok = not need_name
-    for k in ret.keywords:
-        if k.arg == "name" and norm(k.value) in ("%s._name" % pn[0], "%s.name" % pn[0], "str(%s._name)" % pn[0],
-                                                 "str(%s.name)" % pn[0]):
-            name_ok = True
-    dc = _component_dictcomp(ret)
-    elt, var, self_name, over = None, None, pn[0], None
-    helper_name_kept = False
-    if dc is not None and norm(ret.func) in ("%s.__class__" % pn[0], "Vector", "type(%s)" % pn[0]):
-        elt_holder = (dc, pn)
-    else:
-        # helper extraction: self.<helper>(<lambda>)
-        callee = tree.resolve_call(fi, ret)
-        lam = ret.args[0] if ret.args and isinstance(ret.args[0], ast.Lambda) else None
-        if isinstance(callee, FuncInfo) and callee.cls is not None and lam is not None and len(lam.args.args) == 1:
-            hret = single_return(callee)
-            hp = params(callee)
-            hdc = _component_dictcomp(hret) if isinstance(hret, ast.Call) else None
-            if hdc is not None and len(hp) >= 2 and len(hdc.generators) == 1:
-                g = hdc.generators[0]
-                if isinstance(g.target, ast.Tuple) and len(g.target.elts) == 2 and isinstance(hdc.value, ast.Call) and \
-                        is_name(hdc.value.func, hp[1]) and len(hdc.value.args) == 1 and is_name(hdc.value.args[0],
-                                                                                                   g.target.elts[1].id):
-                    over_all = norm(g.iter) == "%s._xyz.items()" % hp[0] and not g.ifs and is_name(hdc.key, g.target.elts[0].id)
-                    ok = over_all and elt_ok(lam.body, lam.args.args[0].arg, pn)
-                    for k in hret.keywords:
-                        if k.arg == "name" and "name" in norm(k.value):
-                            name_ok = True
-                    for k in ret.keywords:
-                        if k.arg == "name":
-                            name_ok = name_ok or "name" in norm(k.value)
-                    run.ob(construct, ok, fi.where(), "via helper %s: %s" % (callee.qual, norm(ret)[:80]),
-                           "%s — a component is skipped or treated differently" % what)
-                    if need_name:
-                        run.ob(construct + "::name-kept", name_ok, fi.where(), "name %s" % (
-                            "carried over" if name_ok else "dropped"),
-                               "v[idx].name / group[idx]['velocity'].name is '' instead of the member's name")
-                    return
-        run.unresolved(construct, fi.where(), "not a recognised component map: %s" % norm(ret)[:100])
-        return
-    ok = False
-    if len(dc.generators) == 1:
-        g = dc.generators[0]
-        over_all = norm(g.iter) == "%s._xyz.items()" % pn[0] and not g.ifs
-        if isinstance(g.target, ast.Tuple) and len(g.target.elts) == 2 and all(isinstance(e, ast.Name) for e in g.target.elts):
-            kv, vv = g.target.elts[0].id, g.target.elts[1].id
-            ok = over_all and is_name(dc.key, kv) and elt_ok(dc.value, vv, pn)
-    run.ob(construct, ok, fi.where(), norm(ret)[:100], "%s — a component is skipped or treated differently" % what)
-    if need_name:
-        run.ob(construct + "::name-kept", name_ok, fi.where(), "name %s" % ("carried over" if name_ok else "dropped"),
-               "v[idx].name / group[idx]['velocity'].name is '' instead of the member's name")
